@@ -1,4 +1,5 @@
 import FxVerif.Proofs.C06
+import FxVerif.Proofs.C05Sorted
 /-!
 # C05 — every outgoing transfer is in exactly one place and is settled exactly once
 
@@ -292,6 +293,36 @@ theorem pick_respects_base_and_size (t : Token) (base n : Nat) (l : List Tx) :
     simpa using this
   · rw [pick_is_fee_descending_prefix]
     exact length_take_le _ _
+
+/-- the pool is in descending store-key order (`contract ‖ fee ‖ id`, the order the reverse iterator of
+`IterateUnbatchedTransactions` walks it in) in every reachable state — `AddUnbatchedTx` after a cancelled batch, a fee
+increase, a selection all keep it -/
+theorem pool_sorted (s0 : State) (h0 : IsInit s0) (ops : List Op) : PoolSorted (run s0 ops).pool :=
+  sorted_run (by rw [h0.2.2.2.1]; exact Pairwise.nil) ops
+
+/-- `fee_order_optimal`: in every reachable state a successful `RequestBatch` takes a fee-optimal selection:
+(1) every transfer of that token left in the pool pays at most as much as every selected one;
+(2) if the batch is not full, nothing of that token with fee ≥ base fee is left;
+(3) no choice of at most `OutgoingTxBatchSize` eligible transfers (fee ≥ base fee) of that token from the pool — any
+    sub-multiset, listed in pool order — has a larger total fee than the selected batch -/
+theorem fee_order_optimal (s0 : State) (h0 : IsInit s0) (ops : List Op) (t : Token) (mf bf : Nat) (fr : String)
+    (s' : State) (n : Nat) (h : doReqBatch (run s0 ops) t mf bf fr = (s', .ok n)) :
+    ∃ b, s'.batches = (run s0 ops).batches ++ [b] ∧ b.nonce = n ∧
+      (∀ x ∈ b.txs, ∀ y ∈ s'.pool, y.token = t → y.fee ≤ x.fee) ∧
+      (b.txs.length < outgoingTxBatchSize → ∀ y ∈ s'.pool, y.token = t → y.fee < bf) ∧
+      (∀ l' : List Tx, l'.Sublist ((run s0 ops).pool.filter (fun x => decide (x.token = t))) →
+        l'.length ≤ outgoingTxBatchSize → (∀ x ∈ l', bf ≤ x.fee) → totalFee l' ≤ totalFee b.txs) := by
+  have hs := pool_sorted s0 h0 ops
+  obtain ⟨hn, hs'⟩ := reqBatch_ok h
+  generalize run s0 ops = s at *
+  subst hs'
+  refine ⟨_, rfl, hn.symm, pick_dominates hs t bf _, pick_complete hs t bf _, fun l' hsub hlen hel => ?_⟩
+  have hd := sorted_token_fees hs t
+  simp only [pick_is_fee_descending_prefix, takeWhile_eq_filter_of_desc bf hd]
+  have hl' : l'.filter (fun x => decide (bf ≤ x.fee)) = l' := by
+    rw [filter_eq_self]; intro x hx; simpa using hel x hx
+  rw [totalFee_eq_feeSum, totalFee_eq_feeSum, ← hl']
+  exact feeSum_sublist_le_take (hsub.filter _) (Pairwise.sublist (filter_sublist) hd) _ (by rw [hl']; exact hlen)
 
 /-- non-vacuity: a reachable state with a transfer in the pool, one in a batch, one executed and one refunded -/
 example : ∃ ops : List Op, let s := run (init 1 [((0, 0), 100)] {}) ops
